@@ -76,5 +76,29 @@ class C19(Prop):
         f = case.flags
         return ("stem-75..148" in f or "stem-exact-multiple" in f) and "resubmission" in f
 
+    # scale probe: one page receives more than 1024 out-links (and one more than 1024 in-links) in a single request
+    def extra_checks(self, ctx, tier, seed, shard, nshards):
+        if shard != 2 % nshards:
+            return
+        from ..core import Case
+        from ..ops import Config
+        n = 1100 if tier == "quick" else 2300
+        case = Case(self, ctx, Config(backend="memory", default_rule="domain"), None)
+        case.minimize = False
+        try:
+            hub = b"s:http|h:com|h:hub|"
+            others = [b"s:http|h:com|h:o%d|p:%d|" % (i % 5, i) for i in range(n)]
+            for op in (("batch", [(hub, others)], 50), ("links", [(o, hub) for o in others] + [(hub, hub)])):
+                pre = self.before_op(case, op)
+                out = case.idx.apply(op)
+                if out.status != "ok":
+                    ctx.fail("exception", "scale probe: request %s failed: %r" % (op[0], out.exc), case)
+                case.led.apply(op, out)
+                case.ops.append(op)
+                self.after_op(case, op, out, pre)
+            ctx.extra["scale_probe_links"] += sum(case.led.links.values())
+        finally:
+            case.abort()
+
 
 PROP = C19()
